@@ -487,6 +487,52 @@ def o_c08_prompt(tr, slack_us=3000, eps=("s",)):
     return bad
 
 
+def o_c08_prompt_limited(tr, slack_us=5000):
+    """ACKs are not congestion controlled: an ack-eliciting packet processed while the endpoint is congestion
+    limited (recovery_metrics: congestion_limited, bytes in flight at the window) and stays so must still be
+    acknowledged within max_ack_delay. (While limited the endpoint sends no data, so its pacer is idle and the
+    known pacing delay of ACK-only packets cannot explain a late ACK.)"""
+    bad = []
+    for ep in ("c", "s"):
+        mad = (int(tr.params.get(f"{ep}.max_ack_delay_ms", 0)) or 25) * 1000
+        mets = []          # (t, limited)
+        acks = []          # (t, ranges)
+        rxs = []           # (t, pn)
+        closed_t = None
+        for r in tr.recs:
+            if r.kind == "ev" and r.ep == ep:
+                if r.name == "recovery:metrics_updated":
+                    m = metrics(r.text)
+                    if m:
+                        mets.append((r.t, m["limited"] and m["bif"] + 1500 >= m["cwnd"]))
+                elif r.name == "connectivity:connection_closed" and closed_t is None:
+                    closed_t = r.t
+            elif r.kind == "txp" and r.ep == ep and r.space == "app":
+                for f in r.frames:
+                    if f["type"] == "ACK":
+                        acks.append((r.t, f["ranges"]))
+            elif r.kind == "rxp" and r.ep == ep and r.space == "app" and qp.ack_eliciting(r.frames):
+                rxs.append((r.t, r.pn))
+        end_t = closed_t if closed_t is not None else (tr.end[0] if tr.end else 0)
+        import bisect
+        mt = [t for t, _ in mets]
+        for t0, pn in rxs:
+            deadline = t0 + mad + slack_us
+            if deadline >= end_t:
+                continue
+            i = bisect.bisect_right(mt, t0) - 1
+            if i < 0 or not mets[i][1]:
+                continue
+            j = bisect.bisect_right(mt, deadline)
+            if any(not lim for _, lim in mets[i:j]):
+                continue
+            if any(t0 <= ta <= deadline and any(lo <= pn <= hi for lo, hi in rg) for ta, rg in acks):
+                continue
+            bad.append(("e2e:c08:ack-late:while-congestion-limited", f"endpoint {ep}: packet {pn} processed at {t0}us while congestion limited is not acknowledged by {deadline}us (max_ack_delay {mad}us)"))
+            break
+    return bad
+
+
 def o_c06(tr):
     """only authentic packets are processed, each at most once"""
     bad = []
